@@ -25,6 +25,7 @@
 #include <cstdio>
 #include <cstdlib>
 #include <cstring>
+#include <limits>
 #include <fstream>
 
 #include <algorithm>
@@ -249,8 +250,13 @@ void FormatRST(fmt::Writer &w,
 int OptionHelper<int>::Parse(const char *&s, bool) {
   char *end = 0;
   long value = std::strtol(s, &end, 10);
+  if (value < std::numeric_limits<int>::min() ||
+      value > std::numeric_limits<int>::max())
+    throw OptionError(fmt::format(
+        "Integer option value \"{}\" is out of range",
+        std::string(s, static_cast<const char*>(end))));
   s = end;
-  return value;
+  return static_cast<int>(value);
 }
 
 double OptionHelper<double>::Parse(const char *&s, bool) {
